@@ -15,6 +15,7 @@ import (
 	"strconv"
 	"strings"
 	"sync"
+	"sync/atomic"
 	"time"
 )
 
@@ -327,8 +328,25 @@ func Main() {
 		}
 		var cv any
 		_ = json.Unmarshal(c, &cv)
-		out.curCase = cv
-		part.run(env, c, out)
+		// A case during which a time anomaly was flagged (virtual time moved where
+		// no wait was scripted) is re-executed; if it stays anomalous it is
+		// recorded as inconclusive and its observations are discarded.
+		for attempt := 1; ; attempt++ {
+			co := newOut()
+			co.curCase = cv
+			co.Samples = append(co.Samples, out.Samples...)
+			a0 := anomalyCount.Load()
+			part.run(env, c, co)
+			if anomalyCount.Load() == a0 {
+				out.merge(co)
+				break
+			}
+			out.Anomalies++
+			if attempt >= 3 {
+				out.Inconclusive = append(out.Inconclusive, fmt.Sprintf("case %s: time anomaly on %d attempts, observations discarded", c, attempt))
+				break
+			}
+		}
 	}
 	out.curCase = nil
 	if part.finish != nil {
@@ -342,6 +360,56 @@ func Main() {
 	}
 	WriteFile(*fOut, b)
 	os.Exit(0)
+}
+
+var anomalyCount atomic.Int64
+
+// FlagAnomaly marks the running case as disturbed by a spurious virtual-time
+// jump; the framework re-executes it.
+func FlagAnomaly() { anomalyCount.Add(1) }
+
+func (o *Out) merge(c *Out) {
+	o.Evaluations += c.Evaluations
+	for k, v := range c.Observed {
+		o.Observed[k] += v
+	}
+	o.Samples = c.Samples
+	if len(o.Samples) > o.maxSamples {
+		o.Samples = o.Samples[:o.maxSamples]
+	}
+	for _, v := range c.Violations {
+		if len(o.Violations) < 60 && o.ViolCount[v.Sig] < 2 {
+			o.Violations = append(o.Violations, v)
+		}
+		o.ViolCount[v.Sig]++
+	}
+	for k, n := range c.ViolCount {
+		// counts beyond the recorded witnesses
+		rec := int64(0)
+		for _, v := range c.Violations {
+			if v.Sig == k {
+				rec++
+			}
+		}
+		o.ViolCount[k] += n - rec
+	}
+	o.Inconclusive = append(o.Inconclusive, c.Inconclusive...)
+	if len(o.Inconclusive) > 50 {
+		o.Inconclusive = o.Inconclusive[:50]
+	}
+	o.DistinctN += c.DistinctN
+	for _, r := range c.Require {
+		o.Need(r)
+	}
+	for _, n := range c.Notes {
+		o.Note("%s", n)
+	}
+	for h := range c.hashes {
+		o.hashes[h] = struct{}{}
+	}
+	if c.Exhaustive {
+		o.Exhaustive = true
+	}
 }
 
 func (o *Out) finalize() {
